@@ -1,13 +1,21 @@
 /-
-  C09 / KF-C09-CHMAP-REFUSED-KEPT — SFC_SET_CHANNEL_MAP_INFO stores the caller's map in psf->channel_map BEFORE it asks the container
-  whether it can take it.  On a container without a command hook (AU, RAW, PAF, …) the call then returns SF_FALSE — and so it does on
-  WAV / AIFF / CAF for a map they cannot express — while SFC_GET_CHANNEL_MAP_INFO afterwards returns SF_TRUE with that map: a call that
-  reports failure has changed the metadata.  The model (`Sf.Command.withHandle`, arm k1101) mirrors the code.
-  * `refused_setter_no_effect_full`       : every metadata setter that answers SF_FALSE leaves the handle alone — FALSE;
-  * `chmap_refused_but_kept`, `…_full_fails` : the witness (findings/kf_c09_chmap_refused_kept.txt on the library);
-  * `refused_setter_no_effect_partial`    : it holds for the four other setters (bext, cart, cue, instrument), every size and data.
+  C09 — a metadata setter that answers SF_FALSE has no effect, for ALL five setters (SFC_SET_BROADCAST_INFO, SFC_SET_CART_INFO,
+  SFC_SET_CUE, SFC_SET_INSTRUMENT, SFC_SET_CHANNEL_MAP_INFO), every handle, size and data.
+
+  SFC_SET_CHANNEL_MAP_INFO copies the caller's map into psf->channel_map BEFORE it asks the container whether it can take it.
+  Until the repair "fix: a refused SFC_SET_CHANNEL_MAP_INFO on a handle without a channel map left the refused map behind"
+  (KF-C09-CHMAP-REFUSED-KEPT) a refused map stayed there when the handle had no map before — on AU / RAW / PAF … (no command hook)
+  EVERY set was "refused but kept": SF_FALSE, and SFC_GET_CHANNEL_MAP_INFO afterwards SF_TRUE with that map.  The repaired code
+  frees the refused map; the model (`Sf.Command.chmapSet false`, with the container's verdict `Sf.ChmapVerdict.containerAccepts`)
+  mirrors it, the rule before (`chmapSet true`; `Sf.ChmapVerdict.Rule.keepNew`) is kept next to it.
+  * `refused_setter_no_effect`                      : the full statement (was `…_full`, refuted; `…_partial` excluded the channel map);
+  * `chmap_refused_but_kept_old_rule`, `refused_chmap_no_effect_old_rule_fails` : the witness under the rule before the repair
+                                                      (findings/kf_c09_chmap_refused_kept.txt on the library);
+  * `setMap_refused_no_effect` … : the same on the state machine that carries the map itself (`sfmodel chmap`, vlib/chmapfix.py);
+  * `remask_witness` : the residual KF-C09-CHMAP-REMASK (the handler's mask is re-derived from the old map: foreign masks with spare bits).
 -/
 import SfModel.Command
+import SfModel.ChmapVerdict
 import SfProofs.Command
 import Mathlib.Tactic.SplitIfs
 namespace Sf.C09Chmap
@@ -16,11 +24,6 @@ open Sf.Command
 /-- the metadata setters that answer SF_FALSE on failure -/
 def isSetter (cmd : Int) : Bool := cmd = 0x10F1 ∨ cmd = 0x1400 ∨ cmd = 0x10CF ∨ cmd = 0x10D1 ∨ cmd = 0x1101
 
-/-- full statement: a setter that returns SF_FALSE leaves the handle as it was -/
-def refused_setter_no_effect_full : Prop :=
-  ∀ (g : G) (h : H) (cmd : Int) (size : Nat) (data : Option Mem), isSetter cmd = true →
-    (run g (some h) cmd size data).ret = .exact 0 → (run g (some h) cmd size data).h' = some h
-
 /-- an AU write handle (no container command hook) -/
 def auW : H :=
   { mode := .w, container := 0x030000, codec := 2, channels := 2, seekable := true, hasCommand := false, haveWritten := false,
@@ -28,21 +31,15 @@ def auW : H :=
     scaleIntFloat := false, autoHeader := false, ieeeReplace := false, endswap := false, ambisonic := 0,
     rf64Downgrade := false, bext := none, cart := none, cues := none, hasInstrument := false, hasLoop := false,
     hasChanMap := false, hasPeak := false, logLen := 11, metaEpoch := 0, fileEpoch := 0 }
+/-- a WAV write handle (wav_command answers by the channel mask) -/
+def wavW : H := { auW with container := 0x010000, hasCommand := true }
 def g0 : G := { verLen := 16, gLogLen := 0, simpleCount := 13, majorCount := 23, subtypeCount := 28 }
-/-- the ints 3, 4 (left, right … any valid entries) -/
+/-- the ints 3, 4 (right, centre: mask bits 1 and 2) -/
 def map34 : Mem := ⟨8, fun i => if i = 0 then 3 else if i = 4 then 4 else 0⟩
+/-- the ints 4, 3 (centre, right: not in mask-bit order — wavlike_gen_channel_mask answers 0) -/
+def map43 : Mem := ⟨8, fun i => if i = 0 then 4 else if i = 4 then 3 else 0⟩
 
-theorem chmap_refused_but_kept :
-    (run g0 (some auW) 0x1101 8 (some map34)).ret = .exact 0 ∧
-    (run g0 (some auW) 0x1101 8 (some map34)).h' = some { auW with hasChanMap := true, metaEpoch := 1 } := by decide
-
-theorem refused_setter_no_effect_full_fails : ¬ refused_setter_no_effect_full := by
-  intro hf
-  have := hf g0 auW 0x1101 8 (some map34) (by decide) chmap_refused_but_kept.1
-  rw [chmap_refused_but_kept.2] at this
-  exact absurd this (by decide)
-
-theorem refused_setter_no_effect_partial (g : G) (h : H) (cmd : Int) (size : Nat) (data : Option Mem)
+theorem refused_setter_no_effect_four (g : G) (h : H) (cmd : Int) (size : Nat) (data : Option Mem)
     (hc : cmd = 0x10F1 ∨ cmd = 0x1400 ∨ cmd = 0x10CF ∨ cmd = 0x10D1)
     (hr : (run g (some h) cmd size data).ret = .exact 0) : (run g (some h) cmd size data).h' = some h := by
   have hp : preHandle g (some h) cmd size data = none := by rcases hc with rfl | rfl | rfl | rfl <;> simp [preHandle]
@@ -68,4 +65,110 @@ theorem refused_setter_no_effect_partial (g : G) (h : H) (cmd : Int) (size : Nat
     split_ifs at hr ⊢ <;> try rfl
     all_goals (cases data <;> simp only [] at hr ⊢)
     all_goals (try split_ifs at hr ⊢) <;> simp_all
+
+/-- the SFC_SET_CHANNEL_MAP_INFO arm of the current code: SF_FALSE leaves the handle as it was -/
+theorem chmapSet_refused_no_effect (h : H) (size : Nat) (data : Option Mem)
+    (hr : (chmapSet false h size data).ret = .exact 0) : (chmapSet false h size data).h' = some h := by
+  unfold chmapSet guardEq at hr ⊢
+  cases data <;> simp only [] at hr ⊢
+  · split_ifs <;> rfl
+  · split_ifs at hr ⊢ <;> first | rfl | simp_all
+
+/-- **refused_setter_no_effect** (full strength): whichever of the five setters answers SF_FALSE, on whatever handle, size
+    and data, the handle is what it was -/
+theorem refused_setter_no_effect (g : G) (h : H) (cmd : Int) (size : Nat) (data : Option Mem) (hc : isSetter cmd = true)
+    (hr : (run g (some h) cmd size data).ret = .exact 0) : (run g (some h) cmd size data).h' = some h := by
+  by_cases h5 : cmd = 0x1101
+  · subst h5
+    have hp : preHandle g (some h) 0x1101 size data = none := by simp [preHandle]
+    have hcl : classify 0x1101 = Cls.k1101 := by decide
+    simp only [run, hp, withHandle, hcl] at hr ⊢
+    exact chmapSet_refused_no_effect h size data hr
+  · apply refused_setter_no_effect_four g h cmd size data _ hr
+    simp only [isSetter, Bool.decide_or, Bool.or_eq_true, decide_eq_true_eq] at hc
+    omega
+
+/-- non-vacuity: the refusal happens — AU refuses every map, WAV one that is not in mask-bit order — and the handle is untouched;
+    a map in mask-bit order is accepted by WAV and changes the handle -/
+example : isSetter 0x1101 = true ∧ (run g0 (some auW) 0x1101 8 (some map34)).ret = .exact 0 ∧
+    (run g0 (some auW) 0x1101 8 (some map34)).h' = some auW ∧
+    (run g0 (some wavW) 0x1101 8 (some map43)).ret = .exact 0 ∧ (run g0 (some wavW) 0x1101 8 (some map43)).h' = some wavW ∧
+    (run g0 (some wavW) 0x1101 8 (some map34)).ret = .exact 1 ∧
+    (run g0 (some wavW) 0x1101 8 (some map34)).h' = some { wavW with hasChanMap := true, metaEpoch := 1 } := by decide
+
+/-! ## the rule before the repair (KF-C09-CHMAP-REFUSED-KEPT) -/
+
+/-- the statement for the arm as it was: SF_FALSE leaves the handle as it was -/
+def refused_chmap_no_effect_old_rule : Prop :=
+  ∀ (h : H) (size : Nat) (data : Option Mem), (chmapSet true h size data).ret = .exact 0 → (chmapSet true h size data).h' = some h
+
+theorem chmap_refused_but_kept_old_rule :
+    (chmapSet true auW 8 (some map34)).ret = .exact 0 ∧
+    (chmapSet true auW 8 (some map34)).h' = some { auW with hasChanMap := true, metaEpoch := 1 } := by decide
+
+theorem refused_chmap_no_effect_old_rule_fails : ¬ refused_chmap_no_effect_old_rule := by
+  intro hf
+  have := hf auW 8 (some map34) chmap_refused_but_kept_old_rule.1
+  rw [chmap_refused_but_kept_old_rule.2] at this
+  exact absurd this (by decide)
+
+/-! ## the same on the state machine that carries psf->channel_map itself (`Sf.ChmapVerdict`, run against the library) -/
+
+open Sf.ChmapVerdict in
+/-- a refused call (SF_FALSE) leaves psf->channel_map and everything else as it was -/
+theorem setMap_refused_no_effect (s : St) (size : Nat) (m : Option (List Int)) (hr : (setMap s size m).ret = 0) :
+    (setMap s size m).st = s := by
+  unfold setMap setMapW at hr ⊢
+  cases m <;> simp only [] at hr ⊢
+  · split_ifs <;> rfl
+  · split_ifs at hr ⊢ <;> first | rfl | simp_all
+
+open Sf.ChmapVerdict in
+/-- … hence SFC_GET_CHANNEL_MAP_INFO answers after a refused call what it answered before -/
+theorem getMap_after_refused (s : St) (size : Nat) (m : Option (List Int)) (gs : Nat) (gn : Bool)
+    (hr : (setMap s size m).ret = 0) : getMap (setMap s size m).st gs gn = getMap s gs gn := by
+  rw [setMap_refused_no_effect s size m hr]
+
+open Sf.ChmapVerdict in
+/-- an accepted call stores exactly the caller's map, and the container had a mask / tag for it -/
+theorem setMap_accepted (s : St) (size : Nat) (m : Option (List Int)) (hr : (setMap s size m).ret = 1) :
+    ∃ l, m = some l ∧ l.length = s.ch ∧ validEntries l = true ∧ containerAccepts s.container (l.map Int.toNat) = true ∧
+      (setMap s size m).st = { s with map := some (l.map Int.toNat) } := by
+  unfold setMap setMapW at hr ⊢
+  cases m with
+  | none => simp only [] at hr; split_ifs at hr <;> simp_all
+  | some l =>
+    refine ⟨l, rfl, ?_⟩
+    simp only [] at hr ⊢
+    split_ifs at hr ⊢ <;> simp_all
+
+open Sf.ChmapVerdict in
+/-- a container without a command hook accepts no map -/
+theorem no_hook_refuses (c : Nat) (map : List Nat) (hc : hasHook c = false) : containerAccepts c map = false := by
+  unfold hasHook at hc
+  simp only [Bool.or_eq_false_iff, decide_eq_false_iff_not] at hc
+  unfold containerAccepts
+  simp [hc.1.1.1.1, hc.1.1.1.2, hc.1.1.2, hc.1.2, hc.2]
+
+open Sf.ChmapVerdict in
+/-- the rules before: `keepNew` (fe675bd) keeps the refused map on a handle that had none, `erase` (before that) also replaces the
+    map accepted before; the current rule does neither -/
+theorem setMap_old_rules :
+    let au : St := ⟨0x030000, 2, false, none⟩
+    let wav : St := ⟨0x010000, 2, false, some [2, 3]⟩
+    (setMapW .keepNew au 8 (some [3, 4])).ret = 0 ∧ (setMapW .keepNew au 8 (some [3, 4])).st.map = some [3, 4] ∧
+    (setMapW .erase wav 8 (some [4, 3])).ret = 0 ∧ (setMapW .erase wav 8 (some [4, 3])).st.map = some [4, 3] ∧
+    (setMapW .keepNew wav 8 (some [4, 3])).st = wav ∧
+    (setMap au 8 (some [3, 4])).ret = 0 ∧ (setMap au 8 (some [3, 4])).st = au ∧
+    (setMap wav 8 (some [4, 3])).ret = 0 ∧ (setMap wav 8 (some [4, 3])).st = wav ∧
+    (setMap wav 8 (some [3, 4])).ret = 1 ∧ (setMap wav 8 (some [3, 4])).st.map = some [3, 4] := by decide
+
+open Sf.ChmapVerdict in
+/-- KF-C09-CHMAP-REMASK (known finding, foreign files only): putting the old map back re-derives the handler's mask from it.  For a
+    mask the library wrote itself (one bit per channel, `mapOfMask` then has no padding) that is the mask again; a foreign mask
+    with more bits than channels (0x7 on two channels) comes back without the extra bits (findings/kf_c09_chmap_remask.txt) -/
+theorem remask_witness :
+    genChannelMask (mapOfMask 0x7 2) = 0x3 ∧ genChannelMask (mapOfMask 0x3 2) = 0x3 ∧ genChannelMask (mapOfMask 0x33 4) = 0x33 ∧
+    genChannelMask (mapOfMask 0x3F 6) = 0x3F ∧ genChannelMask (mapOfMask 0xFF 8) = 0xFF ∧ genChannelMask (mapOfMask 0x4 1) = 0x4 := by decide
+
 end Sf.C09Chmap
